@@ -24,3 +24,5 @@ mk("C01-apply-loop-recursionerror", "C01.class", "loop_apply", T_work=15000)
 mk("C01-call-loop-recursionerror", "C01.class", "loop_call", T_work=15000)
 mk("C01-eval-chain-restart-overrun", "C01.overrun", "eval_chain_busy", T_work=450_000,
    params={"chain_depth": 4, "chain_iters": int(0.8 * 450_000 / 45), "bounded": True})
+mk("C01-regexp-from-earlier-eval-spurious-timeout", "C01.early", "regex",
+   params={"rx_family": "nested_plus", "rx_api": "test", "rx_build": "setup_ctor", "rx_n": 26, "rx_mode": "loop"})
